@@ -143,10 +143,13 @@ def cmd_shrink(prop: str, path: str) -> int:
     used = 0
     best = program
     improved = True
-    while improved and used < budget:
+    # wall-clock cap on minimisation only (a safety net for very large programs): it can make the
+    # replay file less minimal, never changes a verdict - the result is re-executed afterwards anyway
+    t_end = time.time() + float(os.environ.get("VERIF_SHRINK_WALL_S", "240"))
+    while improved and used < budget and time.time() < t_end:
         improved = False
         for cand in mod.shrink_candidates(best):
-            if used >= budget:
+            if used >= budget or time.time() >= t_end:
                 break
             key = hashlib.sha1(json.dumps(cand, sort_keys=True).encode()).hexdigest()
             if key in seen:
